@@ -554,7 +554,8 @@ Proof.
   - apply HBal in Es. unfold nfr in Es.
     unfold reset, emb in Hcall. injection Hcall as Ho Hv Hd.
     unfold restore_frames, emb, with_outer, with_loaded, with_blocks, with_vars. cbn.
-    rewrite Ho, Hv. rewrite truncate_id by exact Es. reflexivity.
+    rewrite Ho, Hv, Hd. rewrite truncate_id by exact Es.
+    replace (h_outer h + 10 - 10) with (h_outer h) by lia. reflexivity.
   - inversion Hcall; reflexivity.
 Qed.
 
@@ -1250,4 +1251,142 @@ Lemma unloadable_parent_proof Q lim E f cur p rest st c : find_tmpl E p = Err c 
   icall Q lim E (S f) (TTemplate cur (IExtends (NLit p) :: rest)) st = Err c.
 Proof.
   intros Ha Hm. cbn [icall ilist istep load_blocks eval_name bind]. rewrite Hm, Ha. reflexivity.
+Qed.
+
+(* ------------------------------------------------------------------------------------ *)
+(* 10. depth accounting is balanced: whatever a stream does - blocks, super(), includes that
+       find their template, includes whose candidates are all missing, ignore missing, macros,
+       imports - when it returns normally the charged depth is what it was before           *)
+(* ------------------------------------------------------------------------------------ *)
+Lemma emit_outer t s s' : emit t s = Ok s' -> outer s' = outer s.
+Proof. unfold emit. destruct (outs s) as [|[buf|] r]; intros H; inversion H; reflexivity. Qed.
+Lemma set_var_outer x v s s' : set_var x v s = Ok s' -> outer s' = outer s.
+Proof. unfold set_var. destruct (store x v (vars s)); intros H; inversion H; reflexivity. Qed.
+Lemma push_frame_outer lim f s s' : push_frame lim f s = Ok s' -> outer s' = outer s.
+Proof. unfold push_frame. destruct (depth_ok _ _ _); intros H; inversion H; reflexivity. Qed.
+Lemma pop_frame_outer s s' : pop_frame s = Ok s' -> outer s' = outer s.
+Proof. unfold pop_frame. destruct (frames (vars s)); intros H; inversion H; reflexivity. Qed.
+Lemma end_capture_outer s c s' : end_capture s = Ok (c, s') -> outer s' = outer s.
+Proof. unfold end_capture. destruct (outs s) as [|c0 [|c1 r]]; intros H; inversion H; reflexivity. Qed.
+Lemma store_all_outer l : forall s s', store_all l s = Ok s' -> outer s' = outer s.
+Proof.
+  induction l as [|[x v] l IH]; cbn; intros s s' H; [inversion H; reflexivity|].
+  apply bind_ok in H as (a & H1 & H2). rewrite (IH _ _ H2). eapply set_var_outer; eassumption.
+Qed.
+
+Section DepthBalance.
+Variable Q : quirks.
+Variable lim : option Z.
+Variable E : env.
+Variable call : task -> ist -> outcome ist.
+Hypothesis HCb : forall t s s', call t s = Ok s' -> outer s' = outer s.
+
+Lemma call_block_outer b s s' : call_block Q lim call b s = Ok s' -> outer s' = outer s.
+Proof.
+  unfold call_block. destruct (assoc b (blocks s)) as [bs|]; [|discriminate].
+  destruct (nth_error (defs bs) (depth bs)) as [[req _]|]; [|discriminate].
+  destruct (_ && _)%bool; [discriminate|].
+  destruct (nth_error (defs bs) _) as [[_ body]|]; [|discriminate].
+  intros H. apply bind_ok in H as (s1 & H1 & H). apply bind_ok in H as (s2 & H2 & H).
+  inversion H; subst; clear H. apply push_frame_outer in H1. apply HCb in H2. cbn in *. lia.
+Qed.
+
+Lemma perform_super_outer cur s s' : perform_super lim call cur s = Ok s' -> outer s' = outer s.
+Proof.
+  unfold perform_super. destruct cur as [b|]; [|discriminate].
+  destruct (assoc b (blocks s)) as [bs|]; [|discriminate].
+  destruct (_ <? _)%nat; [|discriminate].
+  destruct (nth_error (defs bs) _) as [[_ body]|]; [|discriminate].
+  intros H. apply bind_ok in H as (s1 & H1 & H). apply push_frame_outer in H1.
+  destruct (call _ _) as [s2|c| |] eqn:Ec; cbn [wrap_err] in H; try discriminate.
+  apply HCb in Ec. apply bind_ok in H as (s3 & H3 & H). inversion H; subst; clear H.
+  apply pop_frame_outer in H3. cbn in *. lia.
+Qed.
+
+(* found, not found, ignore missing: the include gives back exactly what it charged *)
+Lemma perform_include_outer cur es ign s s' : perform_include Q lim E call cur es ign s = Ok s' -> outer s' = outer s.
+Proof.
+  unfold perform_include. intros H. apply bind_ok in H as ([top|] & _ & H).
+  - destruct (depth_ok _ _ _); [|discriminate].
+    destruct (call _ _) as [s2|c| |] eqn:Ec; cbn [wrap_err] in H; try discriminate.
+    apply HCb in Ec. inversion H; subst. cbn in *. lia.
+  - destruct es; [inversion H; reflexivity|]. destruct ign; [inversion H; reflexivity|discriminate].
+Qed.
+
+Lemma call_value_outer o arg s s' : call_value lim call o arg s = Ok s' -> outer s' = outer s.
+Proof.
+  unfold call_value. destruct o as [[| |body|]|]; try discriminate.
+  unfold call_macro. destruct (_ && _)%bool; [|discriminate].
+  intros H. apply bind_ok in H as (s2 & _ & H). destruct (outs s2) as [|[cap|] [|? ?]]; try discriminate.
+  eapply emit_outer; eassumption.
+Qed.
+
+Lemma for_loop_outer cur body : forall todo idx s s', for_loop call cur body todo idx s = Ok s' -> outer s' = outer s.
+Proof.
+  induction todo as [|t IH]; cbn; intros idx s s' H; [inversion H; reflexivity|].
+  destruct (frames (vars s)); [discriminate|]. apply bind_ok in H as (a & H1 & H2).
+  apply IH in H2. apply HCb in H1. cbn in H1. lia.
+Qed.
+
+Lemma keep_ok par (o : outcome ist) p s' : keep par o = Ok (p, s') -> o = Ok s'.
+Proof. unfold keep. destruct o; cbn; intros H; inversion H; reflexivity. Qed.
+
+Lemma istep_outer lvl0 cur it par s p s' : istep Q lim E call lvl0 cur it par s = Ok (p, s') -> outer s' = outer s.
+Proof.
+  destruct it; cbn [istep]; intros H.
+  - apply keep_ok in H. eapply emit_outer; eassumption.
+  - apply keep_ok in H. apply bind_ok in H as (t & _ & H). eapply emit_outer; eassumption.
+  - apply keep_ok in H. eapply set_var_outer; eassumption.
+  - apply keep_ok in H. destruct (truthy _); [eapply HCb; eassumption|inversion H; reflexivity].
+  - apply keep_ok in H. apply bind_ok in H as (s1 & H1 & H). apply bind_ok in H as (s2 & H2 & H).
+    apply push_frame_outer in H1. apply for_loop_outer in H2. apply pop_frame_outer in H. lia.
+  - apply keep_ok in H. destruct par; [inversion H; reflexivity|].
+    destruct (is_discarding s); [inversion H; reflexivity|eapply call_block_outer; eassumption].
+  - apply keep_ok in H. eapply perform_super_outer; eassumption.
+  - apply keep_ok in H. destruct par; [inversion H; reflexivity|].
+    destruct (is_discarding s); [inversion H; reflexivity|eapply call_block_outer; eassumption].
+  - destruct lvl0; [|discriminate]. unfold load_blocks in H. destruct par; [discriminate|].
+    apply bind_ok in H as (n & _ & H). destruct (memZ n (loaded s)); [discriminate|].
+    apply bind_ok in H as ([pt|] & _ & H); [|discriminate]. inversion H; reflexivity.
+  - destruct lvl0; [|discriminate]. destruct (truthy _); [|inversion H; reflexivity].
+    unfold load_blocks in H. destruct par; [discriminate|].
+    apply bind_ok in H as (n & _ & H). destruct (memZ n (loaded s)); [discriminate|].
+    apply bind_ok in H as ([pt|] & _ & H); [|discriminate]. inversion H; reflexivity.
+  - apply keep_ok in H. eapply perform_include_outer; eassumption.
+  - apply keep_ok in H. eapply set_var_outer; eassumption.
+  - apply keep_ok in H. destruct (lookup f (vars s)); [eapply call_value_outer; eassumption|discriminate].
+  - apply keep_ok in H. apply bind_ok in H as (s1 & H1 & H). apply bind_ok in H as (s2 & H2 & H).
+    apply bind_ok in H as ([c3 s3] & H3 & H). apply bind_ok in H as (ex & _ & H). apply bind_ok in H as (s4 & H4 & H).
+    apply push_frame_outer in H1. apply perform_include_outer in H2. apply end_capture_outer in H3.
+    apply pop_frame_outer in H4. apply set_var_outer in H. cbn in H1. lia.
+  - apply keep_ok in H. apply bind_ok in H as (s1 & H1 & H). apply bind_ok in H as (s2 & H2 & H).
+    apply bind_ok in H as (s3 & H3 & H). apply bind_ok in H as (s4 & H4 & H). apply bind_ok in H as ([c5 s5] & H5 & H).
+    inversion H; subst; clear H.
+    apply push_frame_outer in H1. apply perform_include_outer in H2. apply pop_frame_outer in H3.
+    apply store_all_outer in H4. apply end_capture_outer in H5. cbn in H1. lia.
+  - apply keep_ok in H. destruct (lookup m (vars s)) as [[| | |kvs]|]; try discriminate; try (inversion H; reflexivity).
+    apply bind_ok in H as (t & _ & H). eapply emit_outer; eassumption.
+  - apply keep_ok in H. destruct (lookup m (vars s)) as [[| | |kvs]|]; try discriminate.
+    destruct (assoc f kvs); [eapply call_value_outer; eassumption|discriminate].
+  - apply keep_ok in H. destruct (lookup m (vars s)) as [[| | |kvs]|]; try discriminate.
+    + apply bind_ok in H as (s1 & _ & H). inversion H; reflexivity.
+    + apply bind_ok in H as (s1 & _ & H). eapply emit_outer; eassumption.
+    + apply bind_ok in H as (s1 & _ & H). inversion H; reflexivity.
+Qed.
+
+Lemma ilist_outer lvl0 cur : forall its par s p s', ilist Q lim E call lvl0 cur its par s = Ok (p, s') -> outer s' = outer s.
+Proof.
+  induction its as [|it r IH]; cbn; intros par s p s' H; [inversion H; reflexivity|].
+  apply bind_ok in H as ([p1 s1] & H1 & H2). apply IH in H2. apply istep_outer in H1. cbn in H2. lia.
+Qed.
+End DepthBalance.
+
+Lemma depth_balanced_proof Q lim E : forall f t s s', icall Q lim E f t s = Ok s' -> outer s' = outer s.
+Proof.
+  induction f as [|f IH]; intros t s s' H; cbn [icall] in H; [discriminate|].
+  destruct t as [cur its|cur top].
+  - apply bind_ok in H as ([p s1] & H1 & H). inversion H; subst. eapply ilist_outer; [exact IH|eassumption].
+  - apply bind_ok in H as ([p s1] & H1 & H). apply (ilist_outer Q lim E _ IH) in H1. cbn [fst snd] in H.
+    destruct p as [ptop|]; [|inversion H; subst; assumption].
+    apply bind_ok in H as ([c2 s2] & H2 & H). apply end_capture_outer in H2. apply IH in H. cbn in H. lia.
 Qed.
